@@ -13,6 +13,8 @@ from __future__ import annotations
 
 import ast
 
+from sa.core import register_cache  # noqa: E402
+
 from sa.cfg import CFG
 from sa.core import AnalysisError, attr_chain, chain_root, enclosing, norm, parents, resolve_callee, src, walk_no_nested
 
@@ -39,7 +41,7 @@ def class_fields(p, c):
     return fields
 
 
-NARROWED_ATTRS = {}  # (class qualname, field) -> attribute names of the field that the key reads
+NARROWED_ATTRS = register_cache({})  # (class qualname, field) -> attribute names of the field that the key reads
 
 
 def namespace_attrs_of_field(p, c, fld):
